@@ -604,7 +604,8 @@ def run(ctx):
         phases[name] = round(time.time() - t0, 1); t0 = time.time()
     ctx.mc('MC_Decorators', 'MC_Decorators_quick.cfg' if ctx.quick else 'MC_Decorators_thorough.cfg')
     # the pointer-heap model of TODAY's wrapper.__init__ is expected to break MechRefinesMC (documents the defect at design level)
-    ctx.mc('MC_Decorators', 'MC_Decorators_today.cfg', must_fail='MechRefinesMC', coverage=False)
+    # (one worker: TLC stops at the first violation and the number of states seen until then must not depend on scheduling)
+    ctx.mc('MC_Decorators', 'MC_Decorators_today.cfg', must_fail='MechRefinesMC', coverage=False, workers=1)
     lap('mc')
     cases = ctx.generate('MC_Decorators', 'MC_Decorators_gen_quick.cfg' if ctx.quick else 'MC_Decorators_gen_thorough.cfg')
     parts = {'bind': [], 'heap': [], 'memo': [], 'chain': []}
@@ -624,12 +625,12 @@ def run(ctx):
     s2c_memo(ctx, rep, parts['memo'])
     lap('s2c_memo')
     if ctx.quick:
-        # every history is built and projected on one base function (rotating); every history of <= 3 steps and every 6th
+        # every history is built and projected on one base function (rotating); every history of <= 3 steps and every 8th
         # of the 4-step ones is also called (schedule alternating)
         def pick(n, si, sched, depth):
             if si != n % len(sigs) or sched != ('late', 'eager')[(n // len(sigs)) % 2]:
                 return None
-            return 'calls' if depth <= 3 or n % 6 == 0 else 'shape'
+            return 'calls' if depth <= 3 or n % 8 == 0 else 'shape'
         s2c_heap(ctx, rep, parts['heap'], table, sigs, ('late', 'eager'), pick)
     else:
         # every history of <= 3 steps on every base function in both schedules; every 4-step history is built, projected and
@@ -641,7 +642,7 @@ def run(ctx):
         s2c_heap(ctx, rep, parts['heap'], table, sigs, ('late', 'eager'), pick)
     lap('s2c_heap')
     if ctx.quick:
-        c2s(ctx, rep, 1200, 400, 300)
+        c2s(ctx, rep, 900, 300, 250)
     else:
         c2s(ctx, rep, 6000, 2000, 2000)
     lap('c2s')
